@@ -132,7 +132,7 @@ CHECKS = {
          "refines_trace). From that: delivered is a prefix of accepted with at most capacity messages inside, count / num_free_entries exact, and the three ready/valid laws stated "
          "outright. For enrdy BypassQueue2RTL FIFO order, count and the dequeue law are proved and the enqueue-ready law is shown false (known finding). Models tied to the real "
          "classes by differential simulation (random legal histories for all classes x capacities {1,2,3,4,5,7,8} x 2 message types, exhaustive state x offer enumeration for n <= 2 "
-         "quick / n <= 4 thorough) plus an independent FIFO-ledger oracle.",
+         "quick / n <= 4 thorough) plus an independent FIFO-ledger oracle. Translator tie: tools/py2lean_queue.py regenerates Gen/QueueGen.lean (283 definitions, parametric in the capacity n and the entry type) from the update blocks, constants and wiring of the four RTL queue files on every run and Props/C17Gen.lean proves 247 generated = model obligations for all n.",
          "Models hand-transcribed (RegisterFile/Mux/Reg inline); CL same-cycle order hard-coded from the method constraints and checked only by execution under the real scheduler; "
          "FIFO clauses stated between resets (messages accepted during a reset cycle by ungated families are dropped, as the code does); valrdy_queues.py runs only with two interface "
          "classes injected by the harness (the module is unimportable as shipped: recorded as a note); known finding C17-bypass2-enq-rdy-bubble.",
@@ -155,7 +155,7 @@ CHECKS = {
          "goes to (k+1)%n exactly when priority_en is high without reset, holds otherwise, and goes to 0 on reset, en gating the update in the En variant; a continuously "
          "requesting input is granted within nreqs advancing cycles (fair, by induction over arbitrary histories with the decreasing cyclic distance). Tied to the real "
          "components by exhaustive differential simulation (pointer x reqs x en x reset, internal kill-chain wires included) for nreqs <= 6 (<= 8 thorough) and random "
-         "histories up to nreqs 64, with an independent oracle of the property on the observed ports.",
+         "histories up to nreqs 64, with an independent oracle of the property on the observed ports. Translator tie: tools/py2lean_arb.py regenerates Gen/ArbGen.lean from arbiters.py / registers.py on every run (loops as folds, parametric in nreqs) and Props/C19Gen.lean proves 39 generated = model theorems for every nreqs (gen_settled_eq_model).",
          "Theorems assume a reset has occurred (the uninitialised register 0 grants nothing: proved as dead_before_reset and compared, not a violation). Fairness windows "
          "contain no reset. Hand-written model Model/Arb.lean and the simulator's scheduling are trusted, validated only by the correspondence run.",
          "Lean 4 proof (invariant + closed form + decreasing measure) + exhaustive/random differential correspondence", "DESIGN.md §5 C19"),
